@@ -421,6 +421,9 @@ func runC18(w *World) {
 	if !w.failed() {
 		sandboxProbe(w, n)
 	}
+	if !w.failed() {
+		modeRaceProbe(w, n)
+	}
 	var sm []string
 	for i, op := range sa.ops {
 		if i < 6 {
@@ -575,4 +578,55 @@ func sandboxProbe(w *World, n *Node) {
 		return
 	}
 	w.stat("probe.sandbox_probe_runs", 1)
+}
+
+// modeRaceProbe (a directed schedule, like the pile-up in sandboxProbe): one call of an EVALNA
+// script is one step - the decision "may this server be written to" and the write belong to the
+// same critical section. The script's inner call is held at the lock, another connection's
+// READONLY yes is granted and acknowledged first, then the call is let through: it must be refused.
+func modeRaceProbe(w *World, n *Node) {
+	inst := n.inst
+	admin := newObserver(w, n)
+	admin.a.from = "127.0.0.1:52200"
+	inst.lock.holdRole = "luacall"
+	sc := w.addActor(n, "127.0.0.1:52201", []Cmd{{Args: []string{"EVALNA", "return tile38.call('SET', 'race', 'x', 'POINT', 1, 1)", "0"}}})
+	w.Settle()
+	held := 0
+	for _, r := range inst.lock.pending {
+		if r.role == "luacall" {
+			held++
+		}
+	}
+	v, ok := admin.do("READONLY", "yes")
+	inst.lock.holdRole = ""
+	if !ok || v.String() != "+OK" {
+		if !w.failed() {
+			w.harnessErr("READONLY yes failed in the mode-race probe: %s", v.String())
+		}
+		return
+	}
+	w.Drain(10*time.Second, func() bool { return len(sc.ops) > 0 && sc.ops[0].Return >= 0 })
+	w.Settle()
+	if w.failed() {
+		return
+	}
+	if len(sc.ops) == 0 || sc.ops[0].Return < 0 {
+		w.harnessErr("the script of the mode-race probe got no reply")
+		return
+	}
+	if held > 0 {
+		w.stat("probe.script_call_held_across_mode_switch", 1)
+		srv := inst.srv
+		_, exists := srv.cols.Get("race")
+		if !sc.ops[0].Reply.isErr() || exists {
+			w.violate("C18/step", "an EVALNA script's SET was queued at the lock when READONLY yes was granted and acknowledged; the call then answered %s and the object exists=%v: the read-only decision and the write are not one step",
+				clipStr(sc.ops[0].Reply.String(), 100), exists)
+			return
+		}
+	}
+	if v, ok := admin.do("READONLY", "no"); !ok || v.String() != "+OK" {
+		if !w.failed() {
+			w.harnessErr("READONLY no failed in the mode-race probe: %s", v.String())
+		}
+	}
 }
